@@ -1474,9 +1474,12 @@ func (a *Agent) addRelayCandidates(ctx context.Context, ep relayEndpoint) {
 	if ok {
 		// Publish only candidates of a configured network type (the relayed address may
 		// be of another IP family than the transport types the agent was given).
+		// The same address twice (a rule may list it in two spellings, or repeat the relayed
+		// address itself) would be a duplicate candidate, whose rejection closes the connection
+		// that the first one lives on.
 		allowed := addresses[:0:0]
 		for _, ip := range addresses {
-			if a.relayNetworkTypeConfigured(ep.network, ip) {
+			if a.relayNetworkTypeConfigured(ep.network, ip) && !slices.ContainsFunc(allowed, ip.Equal) {
 				allowed = append(allowed, ip)
 			}
 		}
